@@ -292,6 +292,34 @@ theorem randomKCNF_completing_draws_exist (σ : Int → List Draw) (k n m : Nat)
       rw [hs] at hw
       exact ⟨fun h => hw.1 (by simpa using h), fun h => hw.2 (by simpa using h)⟩
 
+/-- termination of `sample_variables(n, k)` beyond `sys.maxsize`: the rejection loop
+`while len(chosen) < k: chosen.add(random.randint(1, n))` has no bound of its own, but it ends (and returns)
+on EVERY list of `randint(1, n)` answers among which there are `k` distinct values — however many repeats
+come in between -/
+theorem sample_variables_terminates (k n : Nat) (hn : sysMaxsize < n) (hk : k ≤ n) (ds : List Draw)
+    (hds : ∀ d ∈ ds, ∃ v, d = .randint 1 n v) (vs : List Int) (hvs : vs.Nodup) (hlen : vs.length = k)
+    (hmem : ∀ v ∈ vs, Draw.randint 1 n v ∈ ds) :
+    ∃ sel rest, drawVars k n ds = .ok (sel, rest) := by
+  rw [drawVars_big (by omega), if_neg (by omega)]
+  obtain ⟨sel, rest, h⟩ := rejectVars_terminates (k := k) (n := n) ds [] vs hds hvs
+    (fun v hv => ⟨by simp, hmem v hv⟩) (by simp [hlen])
+  exact ⟨isort sel, rest, by rw [RandM.bind_apply, h]; rfl⟩
+
+/-- … and what it returns is then (legal answers) a strictly increasing `k`-list over `1..n` -/
+theorem sample_variables_shape (k n : Nat) (ds rest : List Draw) (sel : List Int) (hL : Legal ds)
+    (h : drawVars k n ds = .ok (sel, rest)) :
+    sel.length = k ∧ sel.Pairwise (· < ·) ∧ ∀ x ∈ sel, 1 ≤ x ∧ x ≤ (n : Int) :=
+  mem_combos_vars.1 (drawVars_ok hL h).2.1
+
+/-- non-vacuity: n = 2^63, k = 2, answers 7, 7 (repeat, not added), 3 -/
+example : drawVars 2 (2 ^ 63) [.randint 1 (2 ^ 63) 7, .randint 1 (2 ^ 63) 7, .randint 1 (2 ^ 63) 3, .choice 2 0] =
+    .ok ([3, 7], [.choice 2 0]) := by rfl
+
+/-- non-vacuity of the shape theorems beyond `sys.maxsize`: a recorded run with k = 2, n = 2^63, m = 1 -/
+example : (randomKCNF (fun _ => []) 2 (2 ^ 63) 1 none [[3]]
+      [.randint 1 (2 ^ 63) 7, .randint 1 (2 ^ 63) 7, .randint 1 (2 ^ 63) 3, .choice 2 0, .choice 2 1]).toOption.map
+        (fun r => r.1.toCNF.clauses) = some [[3, -7]] := by decide
+
 /-- arbitrary integer arguments: `non_negative_int` rejects negatives with ValueError first -/
 theorem randomKCNFInt_valueError_iff_partial (σ : Int → List Draw) (k n m : Int) (seed : Option Int)
     (planted : List (List Int)) (rng : List Draw) (hS : n ≤ (sysMaxsize : Int)) (hL : Legal (usedStream σ seed rng))
